@@ -17,6 +17,7 @@ import (
 	"bytes"
 	"fmt"
 	"hash/fnv"
+	"math/rand"
 	"regexp"
 	"runtime"
 	"sort"
@@ -161,7 +162,16 @@ type X struct {
 	lockEdges   map[string]struct{}
 	running     bool
 	preemptFree bool
+
+	// free-running mode (race pass): threads never park, choices are
+	// drawn from rng, only events are sequenced by the controller.
+	free bool
+	rng  *rand.Rand
 }
+
+// Free reports whether this execution is a free-running one (race
+// pass): oracles that rely on quiescent snapshots should be skipped.
+func (x *X) Free() bool { return x.free }
 
 // ---------------------------------------------------------------------------
 // Harness-facing API
@@ -175,9 +185,13 @@ func (x *X) Go(name string, fn func()) *Thread {
 	go func() {
 		x.mu.Lock()
 		x.byG[goid()] = t
-		t.pend = &pending{kind: kindPoint, label: "start"}
+		if !x.free {
+			t.pend = &pending{kind: kindPoint, label: "start"}
+		}
 		x.mu.Unlock()
-		<-t.park
+		if !x.free {
+			<-t.park
+		}
 		defer func() {
 			if r := recover(); r != nil {
 				if _, ok := r.(abortSignal); !ok {
@@ -232,7 +246,7 @@ func (x *X) currentOrAdopt(label string) *Thread {
 	x.mu.Lock()
 	defer x.mu.Unlock()
 	t := x.byG[g]
-	if t == nil && x.adoptAnon && x.running {
+	if t == nil && x.adoptAnon && x.running && !x.free {
 		t = &Thread{ID: len(x.threads), Name: "anon:" + label, Anon: true, park: make(chan int)}
 		x.threads = append(x.threads, t)
 		x.byG[g] = t
@@ -242,13 +256,18 @@ func (x *X) currentOrAdopt(label string) *Thread {
 
 func (x *X) parkAt(t *Thread, p *pending) int {
 	x.mu.Lock()
+	if x.free {
+		c := 0
+		if p.n > 1 {
+			c = x.rng.Intn(p.n)
+		}
+		x.mu.Unlock()
+		runtime.Gosched()
+		return c
+	}
 	t.pend = p
 	x.mu.Unlock()
-	c := <-t.park
-	if t.abort {
-		runtime.Goexit()
-	}
-	return c
+	return <-t.park
 }
 
 // Point is an explicit scheduling point (e.g. inside a fake storage
@@ -568,6 +587,10 @@ func (x *X) run() {
 	x.mu.Lock()
 	x.running = true
 	x.mu.Unlock()
+	if x.free {
+		x.runFree()
+		return
+	}
 	for {
 		synctest.Wait()
 		x.mu.Lock()
@@ -803,4 +826,47 @@ func (x *X) stuckFingerprint() string {
 	}
 	sort.Strings(parts)
 	return strings.Join(parts, "+")
+}
+
+// runFree sequences only the environment events; threads run freely (and
+// truly concurrently) in between, so that the race detector observes the
+// code's own synchronisation only.
+func (x *X) runFree() {
+	for i := 0; i < x.maxSteps; i++ {
+		synctest.Wait()
+		x.mu.Lock()
+		unfinished := 0
+		for _, t := range x.threads {
+			if !t.done && !t.Anon {
+				unfinished++
+			}
+		}
+		x.mu.Unlock()
+		var en []*Event
+		for _, e := range x.events {
+			if !e.Teardown && (e.Enabled == nil || e.Enabled()) {
+				en = append(en, e)
+			}
+		}
+		if len(en) == 0 {
+			for _, e := range x.events {
+				if e.Teardown && (e.Enabled == nil || e.Enabled()) {
+					en = append(en, e)
+					break
+				}
+			}
+		}
+		if len(en) == 0 {
+			if unfinished > 0 {
+				x.deadlock = true
+			}
+			return
+		}
+		x.mu.Lock()
+		e := en[x.rng.Intn(len(en))]
+		x.mu.Unlock()
+		x.trace = append(x.trace, Point{N: len(en), Label: "ev:" + e.Name})
+		e.Fire()
+	}
+	x.horizon = true
 }
